@@ -10,7 +10,7 @@ Extraction "model.ml"
   layout_event layout_tick layout_event2 layout_tick2 chv2_init set_chords2 init_layout keycodes current_layer evaluate_boolean switch_actions
   os_from_u16 os_as_u16 osc_to_kc kc_to_osc kc_as_u16 str_to_oscode out_filter
   compiles compile_case cases_spec parse_sequences
-  k_input k_tick k_init k_is_idle k_is_idle_cfg k_can_block override_keys fakekey_action set_k_layout
+  k_input k_tick k_tick_ms k_init k_is_idle k_is_idle_cfg k_can_block override_keys fakekey_action set_k_layout
   parse_ atom_res list_res fmt_sexpr parse_vars_items expand_templates
   z_init z_press z_release z_tick z_is_idle
   next_index reload_due
